@@ -908,6 +908,9 @@ func (p *Parser) Parse() (Statement, error) {
 	if err = selectStmt.checkFieldCycles(); err != nil {
 		return nil, err
 	}
+	// Field names inside the select fields are resolved before ORDER BY, GROUP BY,
+	// WHERE and the fields themselves are type checked
+	selectStmt.resolveFieldNames(checkCtx)
 
 	for p.tok != nil {
 		switch p.tok.Tp {
